@@ -65,13 +65,17 @@ def arity_check(recipe, obj, lts, ctxs, envs, part, U):
         part.count("inconsistent_arguments_skipped")
         return None
     ok = True
-    for cm in (False, True):
+    # one Form object is preprocessed in real mode and then in complex mode (forms are reused like that; whatever a
+    # Form caches must not carry an acceptance from one mode into the other)
+    form_reused = obj * ufl.dx
+    verdict = {}
+    for cm, form in ((False, form_reused), (True, form_reused)):
         part.inc("transitions")
         from mc.guard import HangError, time_limit
 
         try:
             with time_limit(120, key):
-                fd = compute_form_data(obj * ufl.dx, complex_mode=cm)
+                fd = compute_form_data(form, complex_mode=cm)
         except HangError as e:
             part.violation(
                 f"{PID}:hang:{'complex' if cm else 'real'}:{key}",
@@ -85,7 +89,9 @@ def arity_check(recipe, obj, lts, ctxs, envs, part, U):
                 raise
             part.error(type(e).__name__)
             part.outcome(("rejected", cm, type(e).__name__))
+            verdict[cm] = "rejected:" + type(e).__name__
             continue
+        verdict[cm] = "accepted"
         part.outcome(("accepted", cm, len(nums)))
         part.count("accepted")
         wit = {"recipe": recipe, "show": key, "complex_mode": cm, "expr": repr(obj)[:800]}
